@@ -97,7 +97,7 @@ class C16(Prop):
             out.append(Case("time", rng.choice(["local", "threads"]), [("pipe", [pipe])],
                             [["sub"], ["q", "pulls"]], {"kind": "iterator", "n": n}))
         out += self.stream_cases(rng, tier)
-        return out
+        return tg.with_units(seed, out)
 
     def stream_cases(self, rng, tier):
         """from_stream / from_stream_result below an early-terminating operator."""
